@@ -25,7 +25,7 @@ def run(ctx):
         "child interpreters run with OPENBLAS_NUM_THREADS=1 OMP_NUM_THREADS=1 so that a threaded BLAS reduction cannot be the reason two runs differ",
         "real-valued data, so that a change of summation order changes bits"])
     rep.rule = "every program emitted by TLC from spec/Rng.tla (all call sequences up to MaxHist); an output is non-trivial when its determinism key is seeded; distinct by key"
-    apis = {"rand", "randn", "normal", "randint", "init", "layers", "dropout", "split", "train", "tied", "cnn", "views", "large"}
+    apis = {"rand", "randn", "normal", "randint", "init", "layers", "dropout", "split", "train", "tied", "cnn", "views", "large", "fanout"}
     if ctx.replay:
         progs = [json.load(open(ctx.replay))["replay"]["hist"]]
         keysl = [json.load(open(ctx.replay))["replay"]["keys"]]
